@@ -306,6 +306,7 @@ func TestC20Trees(t *testing.T) {
 		// symbolic links: to a directory (followed by directory segments, literal or
 		// wildcard alike) and to a file (a file)
 		nlinks := 0
+		var dirLinks []string
 		if rapid.IntRange(0, 2).Draw(t, "links") == 0 {
 			for i := rapid.IntRange(1, 2).Draw(t, "nlinks"); i > 0 && len(entries) > 0; i-- {
 				target := rapid.SampledFrom(entries).Draw(t, "ltarget")
@@ -319,6 +320,9 @@ func TestC20Trees(t *testing.T) {
 				seen[name] = true
 				entries = append(entries, name+" -> "+strings.TrimSuffix(target, "/"))
 				nlinks++
+				if strings.HasSuffix(target, "/") {
+					dirLinks = append(dirLinks, name)
+				}
 			}
 		}
 		depth := rapid.IntRange(1, 3).Draw(t, "pdepth")
@@ -333,6 +337,16 @@ func TestC20Trees(t *testing.T) {
 				wildDir = true
 			}
 			segs = append(segs, s)
+		}
+		if len(dirLinks) > 0 && rapid.Bool().Draw(t, "throughlink") {
+			// the pattern goes through a link to a directory, named literally or by a
+			// pattern with a star
+			l := rapid.SampledFrom(dirLinks).Draw(t, "vialink")
+			if rapid.IntRange(0, 2).Draw(t, "linkstar") == 0 && len(l) > 1 {
+				l = l[:1] + "*" + l[len(l)-1:]
+			}
+			segs = append([]string{l}, segs...)
+			st.Count("pattern_through_a_link_to_a_directory")
 		}
 		c := TreeCase{Entries: entries, Pattern: strings.Join(segs, "/"), Absolute: rapid.IntRange(0, 3).Draw(t, "abs") == 0}
 		st.Eval()
